@@ -265,6 +265,26 @@ def op_apply(w, name, V, tag):
         m.c = V.get(f"c{tag}", 1, 10)
     elif name == "rho":
         w.set_rho(0, V.get(f"rho{tag}", 1, 10))
+    elif name in FIELD_OPS:
+        # heterogeneous (per-element) field held by the caller: assigned, used, then updated IN PLACE by the caller and assigned again -
+        # the second assignment passes the very same array object to the public setter
+        base = {"Efield": 200.0, "kfield": 2.5, "rhofield": 2.0}[name]
+        arr = np.array([base * (1 + Fraction(1, 8) * e) for e in range(mesh.Ne)], dtype=object) if V.symbolic else np.array([base * (1 + 0.125 * e) for e in range(mesh.Ne)])
+
+        def put(a):
+            if name == "Efield":
+                m.E = a
+            elif name == "kfield":
+                m.k = a
+            else:
+                w.set_rho(0, a)
+
+        put(arr)
+        s.Get_K_C_M_F()
+        for rname in RESULTS[w.sim]:
+            s.Result(rname, nodeValues=False)
+        arr[:] = arr * V.get(f"f{tag}", Fraction(1, 2), 2)
+        put(arr)
     elif name == "damping":
         a, b = V.get(f"cM{tag}", 0, 1), V.get(f"cK{tag}", 0, 1)
         s.Set_Rayleigh_Damping_Coefs(a, b)
@@ -324,8 +344,10 @@ def op_apply(w, name, V, tag):
         raise KeyError(name)
 
 
-OPS = {"elastic": ["E", "v", "planeStress", "thickness", "rho", "damping", "translate", "rotate", "symmetry", "coord", "gcoord", "newmesh", "bc", "bc_add", "set_iter"],
-       "thermal": ["k", "c", "thickness", "rho", "translate", "rotate", "symmetry", "coord", "gcoord", "newmesh", "bc", "set_iter"],
+FIELD_OPS = ("Efield", "kfield", "rhofield")  # per-element fields: tied to the mesh they were written for (never followed by a mesh replacement)
+
+OPS = {"elastic": ["E", "v", "planeStress", "thickness", "rho", "damping", "translate", "rotate", "symmetry", "coord", "gcoord", "newmesh", "bc", "bc_add", "set_iter", "Efield", "rhofield"],
+       "thermal": ["k", "c", "thickness", "rho", "translate", "rotate", "symmetry", "coord", "gcoord", "newmesh", "bc", "set_iter", "kfield", "rhofield"],
        "hyper": ["lmbda", "thickness", "rho", "translate", "symmetry", "coord", "gcoord", "newmesh"],
        "beam": ["E", "yAxis", "rho", "bc"]}
 
@@ -535,6 +557,8 @@ def configs(tier):
             out.append({"sim": "beam", "elem": kind, "ops": [o]})
         for a, b in [(a, b) for a in bops for b in bops]:
             out.append({"sim": "beam", "elem": kind, "ops": [a, b]})
+    # a per-element field is written for one mesh: sequences that replace the mesh after it are not meaningful
+    out = [cf for cf in out if not any(o in FIELD_OPS and any(b in ("newmesh", "set_iter") for b in cf["ops"][k + 1:]) for k, o in enumerate(cf["ops"]))]
     extra = [("elastic", "QUAD4"), ("elastic", "TETRA4")] if tier == "thorough" else []
     for sim, elem in extra:
         for o in OPS[sim]:
